@@ -40,6 +40,12 @@ func (l Limit) TryBorrow() bool {
 // Return 归还借用的资源。当多次归还时返回错误。
 // 归还1个，则从池中释放1个。
 func (l Limit) Return() error {
+	// 容量为 0 时不可能有人借到资源：此时非阻塞接收会与一个正阻塞在 Borrow 上的发送方配对，
+	// 使其“借用成功”，从而既放行了超出限制的借用，又让无借用的归还返回 nil。
+	if cap(l.pool) == 0 {
+		return ErrLimitReturn
+	}
+
 	select {
 	case <-l.pool:
 		return nil
